@@ -437,6 +437,53 @@ func (a *Analysis) decLayout(ct *CodecType, p *Path) *PathLayout {
 		}
 		return "", -1, nil, false
 	}
+	c.tiles = func(ev *Event, n int64) []*FieldLayout {
+		type tile struct {
+			lo int64
+			f  *FieldLayout
+		}
+		var ts []tile
+		for _, st := range stores {
+			idx, _ := recvFieldAddr(st.Dst)
+			if !containsWire(st.Src, ev.ID) {
+				continue
+			}
+			lo, it, ord, ok := manualIntAt(st.Src, ev.ID)
+			if !ok {
+				continue // some other use of a number taken from these bytes (a look-up key …); the tiling below must still be complete
+			}
+			sz, _ := fixedSize(it)
+			if sz == 1 {
+				ord = ""
+			}
+			ts = append(ts, tile{lo, &FieldLayout{Kind: "int", Type: typeStr(it), Order: ord, Name: c.fieldName(idx), GoField: idx, Pos: rootPos(ev), Ev: []*Event{ev}, WireIDs: []int{ev.ID}}})
+		}
+		if len(ts) < 2 {
+			return nil
+		}
+		sort.Slice(ts, func(i, j int) bool { return ts[i].lo < ts[j].lo })
+		off := int64(0)
+		var out []*FieldLayout
+		for _, t := range ts {
+			if t.lo != off {
+				return nil
+			}
+			var sz int64
+			switch t.f.Type {
+			default:
+				sz = map[string]int64{"uint16": 2, "int16": 2, "uint32": 4, "int32": 4, "uint64": 8, "int64": 8}[t.f.Type]
+			}
+			if sz == 0 {
+				return nil
+			}
+			off += sz
+			out = append(out, t.f)
+		}
+		if off != n {
+			return nil
+		}
+		return out
+	}
 	fs := c.extractDec(p.Events, sink)
 	fs = a.collapseNestedRuns(ct, c, fs, false)
 	for _, f := range fs {
